@@ -137,6 +137,10 @@ impl MemoryAreas {
     // If a DMA is currently active, it updates with the rest of the memory bus
     // One byte is copied on each machine cycle. This will copy at most that
     // many bytes (or fewer, if the DMA completes before then).
+    // The devices advance by one machine cycle after every byte, so that what
+    // is copied (the source may be the I/O page, the LCD reads OAM) does not
+    // depend on how many cycles are delivered at once.
+    let mut cycles_left = cycles.as_usize();
     if let Some(dma) = self.oam_dma {
       let source = dma.source;
       let mut current_offset = dma.current_offset as usize;
@@ -155,6 +159,9 @@ impl MemoryAreas {
 
         bytes_to_copy -= 1;
         current_offset += 1;
+
+        self.io.run_clock_cycles(ClockCycles(4), &self.video_ram, &self.oam_ram);
+        cycles_left -= 4;
       }
       if current_offset < 0xa0 {
         self.oam_dma = Some(
@@ -168,7 +175,9 @@ impl MemoryAreas {
       }
     }
 
-    self.io.run_clock_cycles(cycles, &self.video_ram, &self.oam_ram);
+    if cycles_left > 0 {
+      self.io.run_clock_cycles(ClockCycles(cycles_left), &self.video_ram, &self.oam_ram);
+    }
   }
 }
 
